@@ -338,7 +338,9 @@ func goKeyEq(a, b *gtext.G) bool {
 	return a.U == b.U
 }
 
-func isNaN(bits uint64) bool { return bits&0x7ff0000000000000 == 0x7ff0000000000000 && bits&0xfffffffffffff != 0 }
+func isNaN(bits uint64) bool {
+	return bits&0x7ff0000000000000 == 0x7ff0000000000000 && bits&0xfffffffffffff != 0
+}
 
 func findKey(items []*gtext.G, step int, k *gtext.G) int {
 	for i := 0; i < len(items); i += step {
